@@ -1,14 +1,16 @@
 #!/bin/bash
-# usage: tools/land.sh CNN [CNN...]  — lead tool: integrate findings (fix commits / known), run each quick check on /repo,
-# register the ones that exit 0, regenerate manifest + results.
+# usage: tools/land.sh CNN [CNN...]  — lead tool: integrate findings (fix commits / known), run the quick checks on /repo
+# (3 at a time), register the ones that exit 0, regenerate manifest + results.
 cd "$(dirname "$0")/.."
 python3 tools/integrate.py "$@" 2>&1 | cut -c1-170
+mkdir -p .work/land
+printf '%s\n' "$@" | xargs -P 3 -I{} sh -c './check {} --tier quick > .work/land/{}.log 2>&1; echo $? > .work/land/{}.rc'
 ok=()
 for p in "$@"; do
-  out=$(./check $p --tier quick 2>&1); rc=$?
-  echo "$out" | grep -E "^$p quick|VIOLATION|INCONCLUSIVE" | cut -c1-220
+  rc=$(cat .work/land/$p.rc)
+  grep -E "^$p quick|VIOLATION|INCONCLUSIVE" .work/land/$p.log | cut -c1-220
   echo "== $p rc=$rc"
-  [ $rc -eq 0 ] && ok+=($p)
+  [ "$rc" = 0 ] && ok+=($p)
 done
 python3 - "${ok[@]}" <<'PY'
 import json,sys
